@@ -106,43 +106,50 @@ package go_clipper2
 
 //@ func clipper64.Execute
 //@   props C12
-//@   frameonly
+//@   requires c.clipperBase != nil
+//@   ensures [idle] idle(c.clipperBase)
 //@   replaces solution
 //@   initfields clipperBase.succeeded clipperBase.fillRule clipperBase.clipType clipperBase.currentBotY clipperBase.currentLocMin clipperBase.sel clipperBase.usingPolyTree
 
 //@ func clipper64.ExecuteOC
 //@   props C12
-//@   frameonly
+//@   requires c.clipperBase != nil
+//@   ensures [idle] idle(c.clipperBase)
 //@   replaces solutionClosed solutionOpen
 //@   initfields clipperBase.succeeded clipperBase.fillRule clipperBase.clipType clipperBase.currentBotY clipperBase.currentLocMin clipperBase.sel clipperBase.usingPolyTree
 
 //@ func clipper64.ExecutePolyTree64
 //@   props C12
-//@   frameonly
+//@   requires c.clipperBase != nil && polytree != nil && polytree.PolyPathBase != nil
+//@   ensures [idle] idle(c.clipperBase)
 //@   replaces polytree openPaths
 //@   initfields clipperBase.succeeded clipperBase.fillRule clipperBase.clipType clipperBase.currentBotY clipperBase.currentLocMin clipperBase.sel clipperBase.usingPolyTree
 
 //@ func clipperD.Execute
 //@   props C12
-//@   frameonly
+//@   requires c.clipperBase != nil
+//@   ensures [idle] idle(c.clipperBase)
 //@   replaces solution
 //@   initfields clipperBase.succeeded clipperBase.fillRule clipperBase.clipType clipperBase.currentBotY clipperBase.currentLocMin clipperBase.sel clipperBase.usingPolyTree
 
 //@ func clipperD.ExecuteOC
 //@   props C12
-//@   frameonly
+//@   requires c.clipperBase != nil
+//@   ensures [idle] idle(c.clipperBase)
 //@   replaces solutionClosed solutionOpen
 //@   initfields clipperBase.succeeded clipperBase.fillRule clipperBase.clipType clipperBase.currentBotY clipperBase.currentLocMin clipperBase.sel clipperBase.usingPolyTree
 
 //@ func clipperD.ExecuteWithScaleFunc
 //@   props C12
-//@   frameonly
+//@   requires c.clipperBase != nil
+//@   ensures [idle] idle(c.clipperBase)
 //@   replaces solutionClosed solutionOpen
 //@   initfields clipperBase.succeeded clipperBase.fillRule clipperBase.clipType clipperBase.currentBotY clipperBase.currentLocMin clipperBase.sel clipperBase.usingPolyTree
 
 //@ func clipperD.ExecutePolyTreeD
 //@   props C12
-//@   frameonly
+//@   requires c.clipperBase != nil && polytree != nil && polytree.PolyPathBase != nil
+//@   ensures [idle] idle(c.clipperBase)
 //@   replaces polytree openPaths
 //@   initfields clipperBase.succeeded clipperBase.fillRule clipperBase.clipType clipperBase.currentBotY clipperBase.currentLocMin clipperBase.sel clipperBase.usingPolyTree
 
@@ -150,3 +157,33 @@ package go_clipper2
 //@   props C12
 //@   frameonly
 //@   replaces solution
+
+//@ spec idle(c *clipperBase) bool = c.actives == nil && len(c.scanlineList) == 0 && len(c.intersectList) == 0 && len(c.outrecList) == 0 && len(c.horzSegList) == 0 && len(c.horzJoinList) == 0
+
+//@ func clipperBase.clearSolutionOnly
+//@   props C12
+//@   ensures [idle] idle(c)
+//@   ensures [keeps-input] same(c.minimaList, old(c.minimaList)) && same(c.vertexList, old(c.vertexList))
+
+//@ func clipperBase.reset
+//@   props C12
+//@   requires len(c.scanlineList) == 0
+//@   requires forall(k, 0, len(c.minimaList), c.minimaList[k] != nil && c.minimaList[k].Vertex != nil)
+//@   loop 0 invariant [len] -1 <= i && i < len(c.minimaList) && len(c.scanlineList) == len(c.minimaList) - 1 - i
+//@   loop 0 invariant [nonnil] forall(k, 0, len(c.minimaList), c.minimaList[k] != nil && c.minimaList[k].Vertex != nil)
+//@   loop 0 decreases i + 1
+//@   ensures [fresh-run-state] c.currentBotY == 0 && c.currentLocMin == 0 && c.actives == nil && c.sel == nil && c.succeeded
+//@   ensures [scanlines] len(c.scanlineList) == len(c.minimaList)
+
+//@ func clipperBase.execute
+//@   props C12
+//@   ensures [idle] idle(c)
+
+//@ func newClipperBase
+//@   props C12
+//@   ensures [idle] result != nil && idle(result)
+//@   ensures [fresh-flags] !result.usingPolyTree && !result.hasOpenPaths && !result.isSortedMinimaList && len(result.minimaList) == 0 && len(result.vertexList) == 0
+
+//@ func NewClipper64
+//@   props C12
+//@   ensures [wired] result != nil && result.clipperBase != nil && idle(result.clipperBase)
